@@ -52,6 +52,19 @@ def _compiler_driver():
     def run(cs, op):
         ctx = types.SimpleNamespace(state=cs, expect_rollback=False, compiler_state=None, _assert_not_in_migration_block=lambda ql: None)
         return C._compile_ql_transaction(ctx, mk[op[0]](op[1] if len(op) > 1 else None))
+    # the prologue every statement inside a transaction goes through: the real Compiler.compile_in_tx up to the point where the statement itself is
+    # compiled (the statement compiler `compile` is replaced by a no-op; CompileContext is the real class)
+    from edb.server.compiler import enums as cenums
+    class _Req:
+        input_language = cenums.InputLanguage.EDGEQL; modaliases = None; session_config = None; source = None
+        output_format = cenums.OutputFormat.BINARY; expect_one = False; implicit_limit = 0; inline_typeids = False; inline_typenames = False
+        inline_objectids = True; protocol_version = (3, 0); input_format = cenums.InputFormat.BINARY
+        def get_cache_key(self): return None
+    C.compile = lambda ctx, source: 'unit-group'
+    def prologue(cs, txid):
+        dummy = types.SimpleNamespace(state=None, _try_compile_rollback=C.Compiler._try_compile_rollback)
+        return C.Compiler.compile_in_tx(dummy, state=cs, txid=txid, request=_Req())
+    run.prologue = prologue
     return run
 
 _DRIVER = []
@@ -65,6 +78,17 @@ def run_history(hist, rnd, via_compiler=False):
         tx = cs.current_tx(); kind = op[0]; exp_reject = False; got_reject = False; ret = None
         try:
             unit = None
+            if via_compiler and m.in_tx and kind != 'SYNC':
+                # the server is in step with the compiler (it presents the position the compiler reported last): compiling the next statement must start
+                # from exactly the current state -- nothing set since the last savepoint operation may be lost by the synchronisation step
+                before = observe(cs); sp_before = [s_.name for s_ in cs.current_tx()._savepoints.values()]
+                _DRIVER[0].prologue(cs, cs.current_tx().id)
+                after = observe(cs)
+                for k_ in ('aliases', 'schema', 'config'):
+                    if after[k_] is not before[k_]:
+                        return dict(step=step, op=op, problem='Compiler.compile_in_tx re-synchronised a state that was in sync: %s set after the last savepoint operation were lost before this statement' % k_)
+                if [s_.name for s_ in cs.current_tx()._savepoints.values()] != sp_before:
+                    return dict(step=step, op=op, problem='Compiler.compile_in_tx changed the savepoint list of a state that was in sync')
             if via_compiler and kind in ('START', 'COMMIT', 'ROLLBACK', 'DECLARE', 'RELEASE', 'ROLLBACK_TO'):
                 # the statement goes through the real compiler entry point; the reference model is updated below and the
                 # unit the compiler reports to the server (aliases, schema, savepoint name / id) is compared with it
